@@ -183,6 +183,10 @@ func (p *Parser) Parse() (al align.Alignment, err error) {
 				err = fmt.Errorf("number of character in sequence #%d (%d) does not correspond to definition %d", i, len(seq), nchar)
 				return
 			}
+			if len(seq) == 0 {
+				err = fmt.Errorf("sequence #%d (%s) has no character", i, name)
+				return
+			}
 			seq = strings.Replace(seq, string(gap), string(align.GAP), -1)
 			seq = strings.Replace(seq, string(missing), string(align.OTHER), -1)
 			seq = strings.Replace(seq, string(matchchar), string(align.POINT), -1)
